@@ -122,3 +122,23 @@ pub fn get_nonspace_bits(data: &[u8; 64]) -> u64 {
 pub use crate::parser::verif_block::{
     container_block, escaped as escaped_bits, skip_space_trace, skip_string, string_bits,
 };
+
+/// The in-place string decoder (`util::string::parse_string_inplace`) on a caller's buffer: `start` is the index just
+/// behind the opening quote. The caller provides the padding the decoder relies on (it loads 32-byte blocks without a
+/// bounds check): `buf.len() >= start + 64` is required. Returns the number of decoded bytes (they stand at
+/// `buf[start..start + cnt]`) and the reader index behind the closing quote, or the error code's name.
+pub fn parse_string_inplace(
+    buf: &mut [u8],
+    start: usize,
+    lossy: bool,
+) -> Result<(usize, usize), String> {
+    assert!(start + 64 <= buf.len());
+    unsafe {
+        let base = buf.as_mut_ptr();
+        let mut src = base.add(start);
+        match crate::util::string::parse_string_inplace(&mut src, lossy) {
+            Ok(cnt) => Ok((cnt, src.offset_from(base) as usize)),
+            Err(code) => Err(format!("{code:?}")),
+        }
+    }
+}
